@@ -17,7 +17,8 @@ package scheduling
 // ---- (6b) the per-candidate workers: a worker reports "keep looking" only for a candidate that refused the pod ----
 // (existing nodes: or for one that is under consolidateAfter; that skip never applies to pending pods or pods of
 // deleting nodes, which is all a provisioning pass schedules). What is still missing for the whole of (6) is a model of
-// the package-local parallelizeUntil (see pending/NOTES.md): "if no worker returned false, every index was visited".
+// the package-local parallelizeUntil: "if no worker returned false, every index below pieces was visited" (then
+// addToExistingNode / addToInflightNode returning an error would imply that every candidate refused the pod).
 //@ func (*Scheduler).addToExistingNode closure@parallelizeUntil
 //@   prop C04
 //@   modifies *
